@@ -11,7 +11,7 @@
 // written from the statement, never from notation.go. VIOLATIONS are raised only
 // for what the statement fixes literally (func stated/judge): success iff a
 // signature among the first N verifies with everything before it fetchable; on
-// success the resolved descriptor (media type, digest, size), exactly one outcome
+// success the resolved descriptor (field by field), exactly one outcome
 // and that of such a signature, nothing after it fetched or evaluated; never more
 // than N distinct signatures fetched/evaluated; the five error conditions; no
 // repository call under skip; signatures listed for the resolved digest. All
@@ -30,6 +30,15 @@
 // mismatching digests of every registered algorithm (sha256/384/512; the other
 // algorithms hash the SAME content), the matching digest in upper-case hex /
 // one hex digit short / one too long, no tag or digest, garbage.
+//
+// Two more dimensions for listings up to a bound (thorough k<=5, quick k<=3; real
+// pass: all), for references that reach the listing and N >= 1, as a full product:
+// 7 error kinds (what an unfetchable signature's fetch fails with - generic, oras
+// ErrNotFound bare/wrapped, context errors, size limit, notation error types - and
+// what the scripted verifier rejects an invalid signature with) x 3 signed-payload
+// variants (what a valid signature signs / its outcome carries: no envelope content
+// or a bare descriptor, a descriptor with user-metadata annotations, a copy of the
+// resolved descriptor). The resolved descriptor has every optional field set.
 //
 // Replay case = {verifier, policy, listing kinds, page sizes, limit, reference kind}.
 package main
@@ -1177,7 +1186,7 @@ func main() {
 		"the mock repository resolves every reference (tag, matching digest, other digest) to the same descriptor and ends the paging at the first error of the callback, as the oras-backed repositories do",
 		"a verifier that returns (nil, err) is outside the statement's alphabet (valid/invalid/unfetchable): when such a signature is among the first N, aborting with an error and treating it as invalid are both tolerated",
 		"'never more than N' is enforced on failing runs too (N is the caller's attempt limit), counted in distinct listed signatures; repeated fetches of one signature are not counted",
-		"'the resolved artifact descriptor' is compared by media type, digest and size; 'that signature's outcome' is identified by RawSignature and may be that of any signature that verifies among the first N with everything before it fetchable",
+		"'the resolved artifact descriptor' is compared field by field (contents, not map/slice identity) with what the mock's Resolve answered; 'that signature's outcome' is identified by RawSignature and may be that of any signature that verifies among the first N with everything before it fetchable",
 		"under skip only the absence of repository calls is judged; the matching digest in upper-case hex is recorded only",
 		"with the real verifier a tag reference is refused by SkipVerify's reference parser (documented TODO in trustpolicy): recorded, not judged",
 		"skip policy with a digest that the repository would not resolve: only the absence of repository calls is judged (the two error/skip clauses of the statement cannot both be demanded)",
